@@ -32,12 +32,13 @@ CLAIMED.update({
                      'for every day of trades and marks of an entry (partial: corporate-action days are C12); ' + ACC,
                 technique='Coq proof (algebra + induction over a day\'s events) + step-wise correspondence', design='DESIGN.md §5 C03'),
     'C09': dict(text='Invariant: reserved cash = sum over open orders of the unfilled fraction of the initial reserve, for every protocol-conforming interleaving '
-                     '(induction over order events), non-negativity, zero with no open order, no-overdraft step lemma; ' + ACC,
-                technique='Coq proof (invariant by induction over order events) + step-wise correspondence', design='DESIGN.md §5 C09'),
+                     '(induction over order events), non-negativity, zero with no open order, no-overdraft step lemma; the protocol hypothesis is discharged by composition with the '
+                     'per-order lifecycle machines of C04 for every interleaving of any number of orders (coupling invariant, frame lemmas: Proofs/ComposeManyFacts.v); ' + ACC,
+                technique='Coq proof (invariant by induction over order events, composition with the order lifecycle machines by a coupling invariant) + regenerated-model equality lemmas + step-wise correspondence', design='DESIGN.md §5 C09'),
     'C10': dict(text='Invariant over the position x resting-closes machine with the validator: quantities, closable and today-closable stay non-negative for every '
                      'sequence of opens, validated closes, fills, drops and day roll-overs; T+1, old-first, reject no-op corollaries; ' + ACC,
                 technique='Coq proof (invariant by induction) + step-wise correspondence', design='DESIGN.md §5 C10'),
-    'C12': dict(text='Value-neutrality theorems for book closure, payable date, integral splits, delisting payout, conversion and expiry; fractional splits and '
+    'C12': dict(text='Value-neutrality theorems for book closure, payable date, integral splits, delisting payout, conversion and expiry, and for the pre-open purge of emptied holdings (nothing with equity or a receivable is dropped); fractional splits and '
                      'overlapping dividends are refuted by witnesses and recorded as known findings; ' + ACC,
                 technique='Coq proof (algebraic lemmas, refutation witnesses by vm_compute) + step-wise correspondence', design='DESIGN.md §5 C12'),
 })
@@ -126,7 +127,7 @@ CLAIMED.update({
     'C14': dict(text='Persist model (Model/Persist.v): persist / restore round trip of positions and accounts is the identity, hence every continuation equals the '
                      'uninterrupted one; the resumable executor publishes, split at any end-of-day stop or at a normal exit, exactly the events of the uninterrupted '
                      'run (pending settlement replayed once, a settled day never again) and coincides with the lifecycle model for a fresh run; the merged report '
-                     'series covers every day once; get_state / set_state key sets are regenerated (Gen/PersistKeys.v); partial: serialisation (jsonpickle / '
+                     'series covers every day once; get_state / set_state key sets and the attribute every persisted scalar is read from and restored to are regenerated (Gen/PersistKeys.v); partial: serialisation (jsonpickle / '
                      'pickle), strategy context, universe and broker book only through the split runs of the real implementation at every stop day, three modes.',
                 technique='Coq proof (round trip, fold / split lemmas by induction) + regenerated key-set obligations + split-run differential with model replay',
                 design='DESIGN.md §5 C14'),
